@@ -328,3 +328,14 @@ def to_disk(f, v):
     if isinstance(v, float) and v != v:
         return None
     return v
+
+
+def jsonable_slot(s):
+    """a slot of a state dump without object identities (for value comparisons)"""
+    def cfg(c):
+        return {"slots": [[k, jsonable_slot(x)] for k, x in c["slots"]], "defaults": sorted(c["defaults"]), "dyn": list(c["dyn"])}
+    if "v" in s:
+        return {"v": repr(F.canon_val(s["v"]))}
+    if "node" in s:
+        return {"node": cfg(s["node"])}
+    return {"nodes": [cfg(x) for x in s["nodes"]]}
